@@ -297,8 +297,8 @@ func plan(c *hxlib.Ctx) []netCfg {
 		n, byz, heights := directedShape(d)
 		add(n, byz, heights, "directed:"+d, 0, 0, 60)
 	}
-	styles := []string{"fair", "lossy", "partition", "slow"}
-	for i := 0; i < c.N(14); i++ {
+	styles := []string{"fair", "lossy", "partition", "slow", "pcfirst"}
+	for i := 0; i < c.N(15); i++ {
 		st := styles[i%len(styles)]
 		crash, window := 12, 50
 		if i%4 == 3 {
@@ -309,6 +309,9 @@ func plan(c *hxlib.Ctx) []netCfg {
 			heights = 3
 		}
 		byz := []int{c.Rand.Intn(4)}
+		if st == "pcfirst" {
+			byz = []int{1 + c.Rand.Intn(2)} // the Byzantine validator proposes in round 0 of height 1 or 2
+		}
 		var silent []int
 		name := ""
 		if i%7 == 6 {
